@@ -53,7 +53,8 @@ class _BaseITML(MahalanobisMixin):
       bounds = bounds.ravel()
       if bounds.size != 2:
         raise ValueError("`bounds` should be an array-like of two elements.")
-      self.bounds_ = bounds
+      # a float copy: the caller's array must not receive the 1e-9 below
+      self.bounds_ = bounds.astype(float)
     self.bounds_[self.bounds_ == 0] = 1e-9
     # set the prior
     # pairs will be deduplicated into X two times, TODO: avoid that
